@@ -59,6 +59,8 @@ fn alphabet() -> Vec<LOp> {
         LOp::Upd(1, "p".into(), s("b"), 2),
         LOp::Upd(1, "p".into(), None, 1),
         LOp::Upd(1, "p".into(), None, 2),
+        LOp::Upd(1, "p".into(), s(""), 1),
+        LOp::Upd(1, "p".into(), s("c"), 3),
         LOp::Upd(1, "q".into(), s("a"), 1),
         LOp::Upd(2, "p".into(), s("a"), 1),
         LOp::Delete(1),
